@@ -1,8 +1,6 @@
 import ExprModel.Proofs.SourcePos
 import ExprModel.Gen.SetLocation
 import ExprModel.Proofs.LocMap
-import ExprModel.Syntax.Ast
-import ExprModel.Syntax.Token
 /-
 C13 — Errors point at the offending source position.
 
@@ -537,25 +535,12 @@ theorem conditional_unlocated_reported_zero_witness :
     report (compile cond { pc := 0, nodes := [], locs := [] }).locs 3 = { line := 0, col := 0 } := by
   decide
 
-/-! ## What remains for the end-to-end statement (`_goal`)
+/-! ## The end-to-end statement
 
-The single-fault claim itself ("one fault at position p ⇒ the reported location is p") composes the
-layers above with the lexer, parser, checker and compiler models written by the other builders.
-Stated over their interfaces so that they can be discharged at merge time; until then the claim is
-checked by the single-fault oracles of harness/c13_oracle.go on the real code. -/
-
-/-- lexer model: every token other than EOF is located at `posOf` of the offset where it starts -/
-def token_positions_goal (lex : List Char → Option (List (Token × Nat))) : Prop :=
-  ∀ src toks, lex src = some toks → ∀ t ∈ toks, t.1.kind ≠ .eof → t.1.loc = posOf src t.2
-
-/-- parser model: every node of a parsed tree, conditionals excepted, carries the location of a token
-    of the input (which token: `node_loc_table`) -/
-def node_locations_goal (parse : List Token → Option Node) (nodesOf : Node → List Node) : Prop :=
-  ∀ toks root, parse toks = some root → ∀ n ∈ nodesOf root,
-    (∃ m c a b, n = Node.cond m c a b) ∨ ∃ t ∈ toks, n.getMeta.loc = t.loc
-
-/-- compiler model: the locations map of a compiled tree is the one of its compile script -/
-def compile_locations_goal (scriptOf : Node → Script) (locationsOf : Node → List (Nat × Loc)) : Prop :=
-  ∀ n, locationsOf n = (expScript (scriptOf n) 0).1
+The composition of the layers above with the lexer (C12), parser (C11) and compiler / VM (C01) models
+is in `Props/C13Pipeline.lean`: `token_locations_in_source`, `parse_locs_from_tokens`,
+`node_locations_in_source`, `compile_locations`, `error_location_is_a_node`,
+`runtime_error_location_in_source`, `runtime_error_location_partial`; what is left is
+`runtime_error_location_goal` there. -/
 
 end ExprModel.C13
